@@ -39,6 +39,43 @@ MUTS = [
  ('M21-retries-plus2', 'persist.py', 'retries += 1', 'retries += 2', ['C16'], 'fail'),
  ('M22-maskbit', 'frame.py', 'mask_bit = 1 << 7 if mask else 0', 'mask_bit = 1 << 6 if mask else 0', ['C03'], 'fail'),
  ('M23-text', 'frame.py', '"opcode is reserved"', '"reserved opcode"', ['C04'], 'fail'),
+ # ---- sites added in round 3 (text state / reader, on_frame, _check_writable / write, on_disconnect / _on_close,
+ #      from_options / get_wbits, on_response, Message.build / Close.from_payload, read_until accounting)
+ ('N1-cont-not-text', 'frame_parser.py', 'if frame.is_text or _is_text_continuation:', 'if frame.is_text:', ['C05'], 'fail'),
+ ('N2-readtext-d9', 'frame_parser.py', 'if self._compression and self._is_compressed:', 'if self._compression:', ['C05'], 'fail'),
+ ('N3-istext-ctrl', 'frame_parser.py', 'if frame.fin and not frame.is_control:', 'if frame.fin:', ['C05'], 'fail'),
+ ('N4-reset-nofin', 'frame_parser.py', "            and frame.fin\n            and (frame.is_text", "            and (frame.is_text", ['C05'], 'fail'),
+ ('N5-iscompressed', 'frame_parser.py', 'self._is_compressed = bool(frame.rsv1)', 'self._is_compressed = bool(frame.rsv2)', ['C05'], 'fail'),
+ ('N6-closed-kind', 'session.py', "raise errors.WebSocketClosed('data not sent')", "raise errors.WebSocketClosing('data not sent')", ['C08'], 'fail'),
+ ('N7-read-order', 'session.py', "        is_closing = self.websocket.is_closing\n        if self.websocket.is_closed:\n            log.debug('WebSocket closed; data not sent')\n            raise errors.WebSocketClosed('data not sent')\n        if is_closing:",
+  "        if self.websocket.is_closed:\n            log.debug('WebSocket closed; data not sent')\n            raise errors.WebSocketClosed('data not sent')\n        if self.websocket.is_closing:", ['C12'], 'fail'),
+ ('N8-write-noflag', 'session.py', "            if closing:\n                self.websocket.state.closing = True", "            if closing:\n                pass", ['C08', 'C12'], 'fail'),
+ ('N9-send-closing', 'session.py', 'closing=(opcode == Opcode.CLOSE)', 'closing=(opcode == Opcode.PING)', ['C08'], 'fail'),
+ ('N10-disc-order', 'websocket.py', "        state.closed = True\n        state.closing = False", "        state.closing = False\n        state.closed = True", ['C12', 'C08'], 'fail'),
+ ('N11-onclose-order', 'websocket.py', "            self.state.closed = True\n            self.state.closing = False", "            self.state.closing = False\n            self.state.closed = True", ['C12'], 'fail'),
+ ('N12-onclose-noecho-flag', 'websocket.py', "            self.close(message.code, message.reason)\n            self.state.closing = True", "            self.close(message.code, message.reason)", ['C08'], 'fail'),
+ ('N13-onclose-closed-first', 'websocket.py', "        if self.is_closed:\n            return\n        if self.is_closing:", "        if self.is_closing:", ['C08'], 'fail'),
+ ('N14-options-swapped', 'compression.py', 'decompress_wbits = cls.get_wbits(options, "server_max_window_bits")', 'decompress_wbits = cls.get_wbits(options, "client_max_window_bits")', ['C06'], 'fail'),
+ ('N15-default-14', 'compression.py', '_wbits = options.get(key, "15")', '_wbits = options.get(key, "14")', ['C06', 'C10'], 'fail'),
+ ('N16-reset-swapped', 'compression.py', 'reset_compress = "client_no_context_takeover" in options', 'reset_compress = "server_no_context_takeover" in options', ['C06'], 'fail'),
+ ('N17-ctor-order', 'compression.py', 'decompress_wbits, compress_wbits, reset_decompress, reset_compress\n        )\n        return deflate', 'compress_wbits, decompress_wbits, reset_decompress, reset_compress\n        )\n        return deflate', ['C06'], 'fail'),
+ ('N18-status-200', 'websocket.py', 'if response.status_code != 101:', 'if response.status_code != 200:', ['C10'], 'fail'),
+ ('N19-upgrade-nolower', 'websocket.py', "response.get('upgrade', '<header missing>').lower()", "response.get('upgrade', '<header missing>')", ['C10'], 'fail'),
+ ('N20-accept-exact', 'websocket.py', 'if accept_header.lower() != challenge.lower():', 'if accept_header != challenge:', ['C10'], 'fail'),
+ ('N21-accept-before-upgrade', 'websocket.py', "accept_header = response.get('sec-websocket-accept', None)", "accept_header = response.get('sec-websocket-key', None)", ['C10'], 'fail'),
+ ('N22-ping-pong', 'message.py', "            return Ping(payload)\n        elif opcode == Opcode.PONG:\n            return Pong(payload)", "            return Pong(payload)\n        elif opcode == Opcode.PONG:\n            return Ping(payload)", ['C01'], 'fail'),
+ ('N23-inflate-always', 'message.py', 'if first_frame.rsv1 and decompress:', 'if decompress:', ['C01'], 'fail'),
+ ('N24-close-len2', 'message.py', 'elif len(payload) >= 2:', 'elif len(payload) > 2:', ['C08'], 'fail'),
+ ('N25-close-code3', 'message.py', '(code,) = cls._unpack16(payload[:2])', '(code,) = cls._unpack16(payload[1:3])', ['C08'], 'fail'),
+ ('N26-maxbytes-ge', 'parser.py', 'self.max_bytes is not None and pos > self.max_bytes', 'self.max_bytes is not None and pos >= self.max_bytes', ['C10'], 'fail'),
+ ('N27-check-before-sep', 'parser.py', "                    sep_index += len(sep)\n                    _check_length(sep_index)", "                    _check_length(sep_index)\n                    sep_index += len(sep)", ['C10'], 'fail'),
+ ('N28-masked-ok', 'frame_parser.py', '        if frame.mask:\n            log.warning(', '        if frame.mask and frame.is_control:\n            log.warning(', ['C04'], 'fail'),
+ ('N29-reserved-code', 'websocket.py', 'if message.code in Status.invalid_codes:', 'if message.code is not None and message.code < 1000:', ['C08'], 'fail'),
+ ('Q1-or-swapped', 'frame_parser.py', 'if frame.is_text or _is_text_continuation:', 'if _is_text_continuation or frame.is_text:', ['C05'], 'pass'),
+ ('Q2-maxbytes-flipped', 'parser.py', 'self.max_bytes is not None and pos > self.max_bytes', 'self.max_bytes is not None and self.max_bytes < pos', ['C10'], 'pass'),
+ ('Q3-status-eq', 'websocket.py', 'if response.status_code != 101:', 'if not response.status_code == 101:', ['C10'], 'pass'),
+ ('Q4-len-lt2', 'message.py', 'elif len(payload) >= 2:', 'elif len(payload) > 1:', ['C08'], 'pass'),
+ ('Q5-fin-ctrl-swapped', 'frame_parser.py', 'if frame.fin and not frame.is_control:', 'if not frame.is_control and frame.fin:', ['C05'], 'pass'),
  ('P1-le125', 'frame.py', 'if length < 126:', 'if length <= 125:', ['C03'], 'pass'),
  ('P2-65536', 'frame.py', 'elif length < (1 << 16):', 'elif length < 65536:', ['C03'], 'pass'),
  ('P3-or-reordered', 'compression.py', 'wbits < 8 or wbits > 15', 'wbits > 15 or wbits < 8', ['C10'], 'pass'),
@@ -59,7 +96,7 @@ MUTS = [
 def sha(p):
     return hashlib.sha1(open(p, 'rb').read()).hexdigest()[:10]
 
-GEN_MODS = ['C03_Gen', 'C04_Gen', 'C06_Gen', 'C10_Gen', 'C15_Gen', 'C16_Gen', 'C19_Gen']
+GEN_MODS = ['C01_Gen', 'C03_Gen', 'C04_Gen', 'C05_Gen', 'C06_Gen', 'C08_Gen', 'C10_Gen', 'C12_Gen', 'C15_Gen', 'C16_Gen', 'C19_Gen']
 
 def companion(c=None):
     """build the companion modules against the Generated/ that is on disk now"""
